@@ -74,8 +74,8 @@ VS_CFGS = {
         # three rows, the refusing row second or third; statements after the refused UPDATE
         V("mix-3rows", ["VARCHAR"], 2, ["l1", "l300", "f400"], 4, 2, 3, maxbad=0),
         V("mix-all-uniform", ["INT", "BIGINT", "BOOLEAN", "VARCHAR"], 2, ["l1", "l300", "f400"], 3, 1, 3, emit="refused-upd", wrong=True),
-        V("mix-vvv", ["VARCHAR"], 3, ["l1", "l150", "l300"], 3, 2, 3, maxbad=0),
-        V("mix-null-grow", ["INT", "BIGINT", "BOOLEAN", "VARCHAR"], 2, ["l1", "f399", "f400"], 3, 2, 3, null=True, maxbad=0, intcls=("1",)),
+        V("mix-vvv", ["VARCHAR"], 3, ["l1", "l150"], 3, 2, 3, maxbad=0),
+        V("mix-null-grow", ["INT", "BIGINT", "VARCHAR"], 2, ["l1", "f400"], 3, 2, 3, null=True, maxbad=0, intcls=("1",)),
     ],
 }
 
